@@ -104,6 +104,10 @@ impl EnumData {
         }
     }
 
+    pub(super) fn is_flag(&self) -> bool {
+        self.is_flag
+    }
+
     pub(super) fn unscoped_variants(&self) -> Option<&[String]> {
         if self.is_class {
             None
